@@ -7,11 +7,11 @@ CONSTANTS
   CacheCap = 1
   Universe <- UC
   H0 = 1
-  Peers = {1}
+  Peers = {1, 2}
   Fine = FALSE
   UseRing = TRUE
   MaxWritten = 99
 VIEW View
 INVARIANT Inv
-PROPERTY StepProp
+ACTION_CONSTRAINT Emit
 CHECK_DEADLOCK FALSE
